@@ -50,4 +50,11 @@ def expectedFor_C09 : List (String × String) := [
 /-- the code behind C09 branches on exactly the conditions the model was written against -/
 theorem conditions_as_modelled_C09 : Gen.condSitesFor_C09 = expectedFor_C09 := by rfl
 
+def expectedOptFor_C09 : List (String × String) := [
+
+]
+
+/-- every call inside the functions behind C09 passes on the option / metadata list the model passes on -/
+theorem option_plumbing_as_modelled_C09 : Gen.optSitesFor_C09 = expectedOptFor_C09 := by rfl
+
 end Jd.CondSites
